@@ -301,6 +301,20 @@ func (s *IndexedState) Add(ctx *Context, id string, x Map) (string, error) {
 	return id, err
 }
 
+// hasSchedule reports whether the rule is a scheduled rule, which is
+// not in the rule index.  An empty schedule (or null) is no schedule:
+// that is how RuleFromMap and the cron hooks read it.
+func hasSchedule(rule Map) bool {
+	schedule, given := rule["schedule"]
+	if !given || schedule == nil {
+		return false
+	}
+	if s, is := schedule.(string); is {
+		return s != ""
+	}
+	return true
+}
+
 func (s *IndexedState) add(ctx *Context, id string, x Map) (string, []byte, error) {
 	Log(DEBUG, ctx, "IndexedState.add", "state", s.Name, "factx", x, "id", id)
 	then := time.Now()
@@ -339,7 +353,7 @@ func (s *IndexedState) add(ctx *Context, id string, x Map) (string, []byte, erro
 	if old, have := s.IdToFact[id]; have {
 		if oldRule, _ = ExtractRule(ctx, old, false); oldRule != nil {
 			// (Only a rule without a schedule is in the index.)
-			if _, scheduled := oldRule["schedule"]; !scheduled {
+			if !hasSchedule(oldRule) {
 				if err = s.unindexRule(ctx, id, oldRule); err != nil {
 					return "", nil, err
 				}
@@ -350,11 +364,11 @@ func (s *IndexedState) add(ctx *Context, id string, x Map) (string, []byte, erro
 	if rule != nil {
 		// ToDo: Metric(ctx, "RuleUpdated", "location", s.Name, "ruleId", id)
 		Log(DEBUG, ctx, "IndexedState.add", "state", s.Name, "rule", rule, "ruleId", id)
-		if _, scheduled := rule["schedule"]; !scheduled {
+		if !hasSchedule(rule) {
 			if err = s.indexRule(ctx, id, rule); err != nil {
 				if oldRule != nil {
 					// The stored rule stays, so keep it indexed.
-					if _, scheduled := oldRule["schedule"]; !scheduled {
+					if !hasSchedule(oldRule) {
 						s.indexRule(ctx, id, oldRule)
 					}
 				}
@@ -374,12 +388,12 @@ func (s *IndexedState) add(ctx *Context, id string, x Map) (string, []byte, erro
 			// The stored fact stays, so undo what we did to
 			// the rule index.
 			if rule != nil {
-				if _, scheduled := rule["schedule"]; !scheduled {
+				if !hasSchedule(rule) {
 					s.unindexRule(ctx, id, rule)
 				}
 			}
 			if oldRule != nil {
-				if _, scheduled := oldRule["schedule"]; !scheduled {
+				if !hasSchedule(oldRule) {
 					s.indexRule(ctx, id, oldRule)
 				}
 			}
@@ -513,7 +527,7 @@ func (s *IndexedState) rem(ctx *Context, id string) (bool, error) {
 		if rule != nil {
 			// (A rule with a schedule was never put into the rule
 			// index: see add.)
-			if _, scheduled := rule["schedule"]; !scheduled {
+			if !hasSchedule(rule) {
 				if err := s.unindexRule(ctx, id, rule); err != nil {
 					return false, err
 				}
